@@ -63,6 +63,13 @@ func (h *Hash) Evaluation(
 			}
 		}
 
+		// a key without a value (or what an earlier value left unread, taken
+		// for a key): the literal ends at its closing brace, it must not read on
+		// and take the rest of the file for further pairs
+		if nextT == nil || nextT.IsTargetIdentifier("}") {
+			break
+		}
+
 		zaorik := ctx.SuspendMultiValue()
 		err = e.EvalExpr(p, ctx, nextT, 0)
 		zaorik()
